@@ -4,7 +4,7 @@
 From Coq Require Import NArith ZArith List String Bool.
 From V Require Import Base.UString Base.Json Model.SchemaTypes Model.PyBase Model.Schema Model.Serialize Model.SchemaReparse.
 From V Require Import Gen.Tables Proofs.C04Strict Proofs.C04Witness.
-From V Require Import Proofs.C01KindsAll Proofs.C01Object Proofs.C01Roundtrip Proofs.C01LibInstance Proofs.C04Modes Proofs.C04Flag Spec.CustomFree Proofs.C04CustomFree Proofs.C01Parse Proofs.C04Parse.
+From V Require Import Proofs.C01KindsAll Proofs.C01Object Proofs.C01Roundtrip Proofs.C01LibInstance Proofs.C04Modes Proofs.C04Flag Spec.CustomFree Proofs.C04CustomFree Proofs.C01Parse Proofs.C04Parse Proofs.C01Examples.
 Import ListNotations.
 
 (* With customisation disallowed no property cleaner -- at any nesting site: lists, hash
@@ -168,3 +168,13 @@ Proof.
           (conj C01LibInstance.lib_parse_subi C01LibInstance.lib_parse_oki))))).
 Qed.
 Print Assumptions flag_theorem_applies_to_lib.
+
+(* ------------------------------------------------------------------ a positive instance (Proofs/C01Examples.v) *)
+(* a 2.1 identity carrying the custom property x_foo, parsed with allow_custom=True, is flagged; the strict parse of its
+   own encoding is refused with a definite error (ExtraPropertiesError); the input is plain and its class is one of the
+   covered parse entry points (identity_parse_facts in Props/C01.v) *)
+Example identity_custom_flagged_and_refused :
+  flagged (run variant_repaired env0 lib any_pattern any_selectors 6 (RParse true false None identity21_custom)) = true /\
+  strict_rerun_error (run variant_repaired env0 lib any_pattern any_selectors 6 (RParse true false None identity21_custom)) = Some EExtra /\
+  plain_dict identity21_custom = true.
+Proof. exact C01Examples.identity_custom_flagged_and_refused. Qed.
